@@ -342,6 +342,15 @@ func buildScenario(sc scenario, solos map[string]outcome) *sched.Scenario {
 	}
 }
 
+func hasCancel(sc scenario) bool {
+	for _, q := range sc.Reqs {
+		if q.Cancel {
+			return true
+		}
+	}
+	return false
+}
+
 func level(name string) string {
 	if strings.HasPrefix(name, "L") {
 		return "subgraph single flight"
@@ -356,7 +365,7 @@ func TestCheck(t *testing.T) {
 	run.Assume("sequentially consistent interleavings of instrumented synchronisation operations; code between two points is atomic",
 		"fake data source answers are a function of (fetch input, forwarded header); upstream failure is a function of the fetch input",
 		"hash collisions of the xxhash based keys are not explored")
-	bound := vk.Pick(run, 2, 3)
+	bound := vk.Pick(run, 2, 4)
 	run.Bound("preemption_bound", bound)
 	synctest.Test(t, func(t *testing.T) {
 		s := sched.New()
@@ -369,7 +378,10 @@ func TestCheck(t *testing.T) {
 			synctest.Wait()
 			b := bound
 			if len(sc.Reqs) > 2 && b > 2 {
-				b = 2
+				b = 2 // deeper bounds reach native selects with two ready cases (replay divergences)
+			}
+			if len(sc.Reqs) == 2 && hasCancel(sc) && b > 3 {
+				b = 3
 			}
 			ex := &sched.Explorer{S: s, Bound: b, DevBound: 1, Shard: run.Shard(), NShards: run.NShards(), Expired: run.Expired}
 			scn := buildScenario(sc, solos)
